@@ -529,8 +529,30 @@ def save_score_midi(
 
     for tr, events_by_time in events.items():
         t_prev = 0
+        # number of notes sounding per (channel, pitch)
+        sounding = defaultdict(int)
         for t in sorted(events_by_time.keys()):
             evs = events_by_time[t]
+            # the release of a note that started earlier goes before the
+            # note ons of this tick: a note of the same pitch and channel
+            # struck at the moment of the release would otherwise be
+            # released at once (and the earlier note never)
+            released = []
+            for ev in evs:
+                if ev.type == "note_off" and sounding[(ev.channel, ev.note)] > 0:
+                    sounding[(ev.channel, ev.note)] -= 1
+                    released.append(ev)
+            if released:
+                keep = [ev for ev in evs if not any(ev is r for r in released)]
+                k = next(
+                    (i for i, ev in enumerate(keep) if ev.type == "note_on"), len(keep)
+                )
+                evs = keep[:k] + released + keep[k:]
+            for ev in evs:
+                if ev.type == "note_on":
+                    sounding[(ev.channel, ev.note)] += 1
+                elif ev.type == "note_off" and not any(ev is r for r in released):
+                    sounding[(ev.channel, ev.note)] -= 1
             delta = t - t_prev
             for ev in evs:
                 tracks[tr].append(ev.copy(time=delta))
